@@ -505,6 +505,21 @@ def main():
                                         [out["spec"]["prelude"]] + out["spec"]["tasks"]
                                         for op in lst if "gold" in op})
                 line["ntasks"] = len(out["spec"]["tasks"])
+                # hidden state was seen to change: from now on every freshly evaluated
+                # model value also says which state keys that call alone touches
+                if any(k.split(":", 1)[0] in ("slot-filled", "internal-changed", "new-name",
+                                              "removed-internal", "code-rebound")
+                       for k in out["probes"]) and \
+                        not str(spec.get("scenario", "")).startswith("cold"):
+                    server.want_touched = True
+                tch = {}
+                for lst in [out["spec"]["prelude"]] + out["spec"]["tasks"]:
+                    for op in lst:
+                        t_ = (op.get("gold") or {}).get("touched")
+                        if t_ and op.get("kind") in G.BY_KIND:
+                            tch.setdefault(op["kind"], set()).update(t_)
+                if tch:
+                    line["touched"] = {k: sorted(v) for k, v in tch.items()}
                 if want_records:
                     line["records"] = out["res"]["records"]
                 if nsamples < 2 and (out["stats"]["switches"] or out["stats"]["faults_fired"]):
